@@ -237,7 +237,7 @@ def leg_m_jobs(tier):
         jobs.append(("MCSync", "Sync_honest_line3q.cfg", "Sync honest 3 nodes in a line, TreeC: safety + Convergence", 6, 900))
     else:
         jobs.append(("MCSync", "Sync_honest_line3.cfg", "Sync honest 3 nodes in a line, all assignments of TreeC: safety + Convergence", 8, 3000))
-        jobs.append(("MCSync", "Sync_honest_tri3q.cfg", "Sync honest 3 nodes in a triangle, TreeC: safety + Convergence", 8, 3000))
+        jobs.append(("MCSync", "Sync_honest_tri3.cfg", "Sync honest 3 nodes in a triangle, TreeC, 3 assignments: safety + Convergence", 8, 3000))
     return jobs
 
 
@@ -406,7 +406,7 @@ TREES = {   # parent maps of MCSync.tla's TreeB / TreeC (the Go harness material
 }
 
 
-def act_class(a, honest):
+def act_class(a, honest, st=None):
     """eager: performed by the real victim / honest peers on their own as soon as enabled;
     ctrl: performed (or released) by the replay driver"""
     op = a.get("op")
@@ -419,7 +419,12 @@ def act_class(a, honest):
     if op == "Fetch":
         return "eager" if a.get("w") in honest else "ctrl"
     if op == "SyncAbort":
-        return "ctrl"       # a timeout: happens when the driver lets the Byzantine peer fail the request
+        # with a Byzantine worker holding the request the abort is a timeout the driver triggers (it lets
+        # the scripted peer fail the request); without one "all peers failed" is detected by the victim itself
+        n = a.get("n")
+        if st is not None and not any(v == "unsynced" and p not in honest for p, v in st["link"][n].items()):
+            return "eager"
+        return "ctrl"
     return "ctrl"           # Connect, Announce, ZRelay
 
 
@@ -463,7 +468,7 @@ def macro_graph(edges, honest, par):
         seen, stack, quiet = {k}, [k], set()
         while stack:
             x = stack.pop()
-            eager = [t for a, t in out.get(x, []) if act_class(a, honest) == "eager"]
+            eager = [t for a, t in out.get(x, []) if act_class(a, honest, states[x]) == "eager"]
             if not eager:
                 quiet.add(x)
             for t in eager:
@@ -485,7 +490,7 @@ def macro_graph(edges, honest, par):
         done.add(q)
         lst = []
         for a, t in out.get(q, []):
-            if act_class(a, honest) != "ctrl":
+            if act_class(a, honest, states[q]) != "ctrl":
                 continue
             succs = closure(t)
             if succs == [q]:
